@@ -187,6 +187,81 @@ def long_programs(rep, S, table, tier):
     return n
 
 
+# lines that read or write every piece of per-instruction encoder state we know of (immediates narrower than their field,
+# rel8/rel32, ModRM/SIB/displacement, VEX vvvv/W/L, two- and three-operand VEX, size keywords, shift-by-1, accumulator
+# forms, option-sensitive shapes): each is tried directly before and directly after EVERY line of the big corpus
+SENSITIVE = ["mov ecx, 0x5", "mov rcx, 0x5", "mov rax, 0x7fffffff", "mov rax, 0x000000007fffffff", "mov ax, 0x1", "mov ah, 0x1",
+             "jmp 0x1000", "jmp 0x4", "call 0x10", "jrcxz 0x4", "xbegin 0x10", "push 0x100", "push 0x7f", "push -1",
+             "add eax, 0x100", "add rax, -1", "add cl, 0x80", "test eax, 0x80000000", "imul rax, rbx, 0x100",
+             "mov byte [rbp], 0x12", "mov dword [rax+rcx*2+0x10], 0x1", "mov word [4*rcx+0x10], 0x1234", "cmp qword [eax], 0x1",
+             "vmovupd ymm4, [rdi]", "vmovdqu [r9], xmm12", "rorx rax, rbx, 0x3", "vpaddd ymm1, ymm10, [rbp]", "vpxor xmm1, xmm2, xmm3",
+             "mulx r11, rdx, [r8+r9*4]", "bextr eax, [1*r12], ecx", "paddb mm1, [r9]", "pxor xmm1, xmm2", "movq [rax-0x80], xmm9",
+             "lea r15, [rax+rsp]", "lea r15, [2*rax]", "lea rax, [1*rsp+0x10]", "mov rax, [0x10]", "mov rax, [4*r13-0x1]",
+             "xchg rax, rbx", "xchg eax, eax", "shl rax, 1", "shl rax, 0x3", "shl rax, cl", "sar dword [rbx], 1", "rcr cx, 1",
+             "shld rax, rbx, 0x5", "movzx eax, cx", "movzx r9, byte [r10]", "jmp [rax+r9*4]", "call rax", "push [rax+rcx*2+0x10]",
+             "pop r13w", "setne [rbp+0x10]", "prefetcht0 [rax]", "clflush [r8]", "nop", "nop7", "ret", "cmovne rax, [rsp]",
+             "adcx rax, rbx", "inc dword [r12]", "neg al", "not qword [0x1000]"]
+
+
+def neighbour_sweep(rep, tier):
+    """A ; B in one call == code(A) + code(B) for every A of the big corpus and every B of SENSITIVE, in both orders."""
+    from . import c16
+    big = [t for t, _ in c16.base_lines("quick")]
+    cfgs = [hexec.DEFAULT_CFG] if tier == "quick" else CFGS
+    keep, table = singles_cfg(sorted(set(big) | set(SENSITIVE)), cfgs)
+    sens = [t for t in SENSITIVE if t in keep]
+    rep.extra["sensitive_lines_dropped"] = [t for t in SENSITIVE if t not in keep]
+    hs = []
+    meta = []
+    for a in keep:
+        for b in sens:
+            for cfg in cfgs:
+                for x, y in ((a, b), (b, a)):
+                    hs.append("c64:p:cc\t%s\tA%s" % (hexec.cfg_ops(cfg), hexec.esc_fast(x + "\n" + y + "\n")))
+                    meta.append((x, y, cfg))
+    res = hexec.run(hs)
+    for (x, y, cfg), obs in zip(meta, res):
+        rep.evaluations += 1
+        rep.traces += 1
+        rep.transitions += 2
+        want = table[(x, cfg)] + table[(y, cfg)]
+        if hexec.is_crash(obs):
+            got = "crash"
+        else:
+            a = hexec.Asm(obs[-1])
+            got = a.hex[:2 * a.off] if a.ret == 0 and a.off >= 0 else "rejected"
+        if got != want:
+            rep.fail({"class": "neighbour", "cfg": "/".join(cfg), "first": x.split()[0], "second": y.split()[0],
+                      "sensitive": "second" if y in sens else "first"},
+                     ["crash" if got == "crash" else ("rejected" if got == "rejected" else "bytes")],
+                     {"parts": [[x, y]], "cfg": list(cfg), "start": 0, "fill": "cc", "want": want},
+                     "%r then %r in one call [%s]: %s, alone: %s + %s" % (x, y, "/".join(cfg), got, table[(x, cfg)], table[(y, cfg)]))
+    rep.bounds["neighbour_sweep"] = {"corpus_lines": len(keep), "sensitive_lines": len(sens), "configurations": len(cfgs)}
+    return len(keep) * len(sens) * 2
+
+
+def singles_cfg(lines, cfgs):
+    hs = [hexec.single(t, cfg, n=64) for t in lines for cfg in cfgs]
+    res = hexec.run(hs)
+    table = {}
+    keep = []
+    k = 0
+    for t in lines:
+        row = {}
+        for cfg in cfgs:
+            o = res[k]
+            k += 1
+            if not hexec.is_crash(o):
+                a = hexec.Asm(o[-1])
+                if a.ret == 0 and a.off >= 0:
+                    row[cfg] = a.hex[:2 * a.off]
+        if len(row) == len(cfgs):
+            keep.append(t)
+            for cfg in cfgs:
+                table[(t, cfg)] = row[cfg]
+    return keep, table
+
+
 def splits(prog):
     k = len(prog)
     for mask in range(1 << (k - 1)):
@@ -233,7 +308,7 @@ def run(tier, seed):
     rep = Report(PROP, tier, seed)
     rep.rule = ("line set S (one line per parser/encoder path, kept only if it assembles alone); programs = all ordered pairs "
                 "of S, all ordered triples of a core, all programs of <= 4/5 lines over a smaller core in ALL 2^(k-1) splits "
-                "into successive calls; start offsets {0,1,7,64}, buffer fills {00,cc,ff}, each program assembled a second "
+                "into successive calls; every line of the big corpus (one per mnemonic/form/operand-class pattern) directly before and directly after each of ~65 state-sensitive lines; start offsets {0,1,7,64}, buffer fills {00,cc,ff}, each program assembled a second "
                 "time in one call; programs of 7-20 kB on library-managed buffers in one call, in two calls split around each "
                 "growth point and one call per line around it; oracle = concatenation of the single-line outputs under the same "
                 "options (pure byte relation). distinct_nontrivial = distinct programs (line sequences)")
@@ -276,12 +351,18 @@ def run(tier, seed):
                     jobs.append((parts, CFGS[i % 3], start, ("00", "cc", "ff")[(i + start) % 3]))
         check(rep, jobs, table, "splits%d" % k)
         rep.bounds["all_splits_of_%d_line_programs" % k] = len(pool) ** k
+    # every corpus line directly before and after every sensitive line
+    nsweep = 0
+    if not rep.expired():
+        nsweep = neighbour_sweep(rep, tier)
+    else:
+        rep.cut_short("neighbour sweep not run")
     # long programs on library-managed buffers: the same relation across buffer growth
     if not rep.expired():
         nlong = long_programs(rep, S, table, tier)
         rep.bounds["long_programs_internal_buffer"] = nlong
-    rep.states = len(progs)
-    rep.distinct_n = len(progs)
+    rep.states = len(progs) + nsweep
+    rep.distinct_n = len(progs) + nsweep
     rep.sample({"history": hist([["nop", "ret"], ["mov rax, 0x10"]], CFGS[0], 7, "cc")})
     rep.assumptions = ["instructions are position independent (numeric branch operands are displacements)"]
     return rep.finish(replay)
